@@ -1,12 +1,17 @@
 import TracklibVerif.Lemmas.Resample
+import TracklibVerif.Lemmas.ObsTime
 import Mathlib.Data.Rat.Floor
 import Mathlib.Analysis.Real.Sqrt
 /-! # C05 — linear resampling returns the piecewise-linear interpolant of the track
 
 Property theorems only (helper lemmas are in `Lemmas/Resample.lean`). The model
-(`Model/Resample.lean`) mirrors `prepareTimeSampling`, `__resampleTemporal`, `__resampleSpatial` and
-`Track.resample`; a fix is `(x, y, z, t)` with `t = timestamp.toAbsTime()`. All statements are over an
-arbitrary linearly ordered field (ℚ, ℝ): for every track, every list of instants, every step.
+(`Model/Resample.lean`) mirrors `prepareTimeSampling`, `__resampleTemporal`, `__resampleSpatial`, the dispatcher
+`interpolation.resample`, the front end `Track.resample` and the callers that delegate to linear resampling
+(`track // ref`, `track ** n`, `track * k`, `sample`, `synchronize`, `TrackCollection.resample`); a fix is
+`(x, y, z, t)` with `t = timestamp.toAbsTime()`; the stamp of an output is the C03 model (`stampOf`). All
+statements are over an arbitrary linearly ordered field (ℚ, ℝ): for every track, every list of instants, every step.
+Sections: T1–T4 (temporal / spatial), D1–D4 (degenerate requests), S1 (millisecond stamps), T3d (pauses),
+O1–O5 (callers).
 
 `sampleT P t` / `sampleS P S s` (Lemmas) are the *specification* samples: the point of the leg
 `r = firstGE v V` — the number of abscissas `< v`, i.e. the first index with `v ≤ V[r]` — at fraction
@@ -241,18 +246,22 @@ theorem spatial_distance_along_leg (sqrt : α → α) (hs : SqrtSpec sqrt) (a b 
           * sqrt ((b.x - a.x) * (b.x - a.x) + (b.y - a.y) * (b.y - a.y))) := by rw [h4]
     _ = _ := by ring
 
-/-- Front end `Track.resample(delta, ALGO_LINEAR, mode, npts, factor)`. (a) whenever it returns, the table
-of analytical features is empty; (b) with an explicit `delta` on a non-empty track it is exactly
-`__resampleTemporal` (mode 2) / `__resampleSpatial` (mode 1, numeric step); (c) with `delta = None` it is the
-same call with the numeric step `(1+1e-8)·D/npts`, `D` the duration (temporal) or the 3D length (spatial) and
-`npts` defaulting to `len(track)·factor`. -/
+/-- Front end `Track.resample(delta, ALGO_LINEAR, mode, npts, factor)` and the module-level dispatcher
+`interpolation.resample` it calls. (a) whenever `Track.resample` returns, the table of analytical features is empty,
+whereas the dispatcher alone leaves the table as it was (its assignment is to an un-mangled attribute); (b) with an
+explicit `delta` on a non-empty track it is exactly `__resampleTemporal` (mode 2) / `__resampleSpatial` (mode 1,
+numeric step; any other step is a TypeError); (c) with `delta = None` it is the same call with the numeric step
+`(1+1e-8)·D/npts`, `D` the duration (temporal) or the 3D length (spatial) and `npts` defaulting to
+`len(track)·factor`. -/
 theorem frontend (sqrt : α → α) (trunc : α → Int) (g : α) (P : List (Fix α)) (feat : List String)
     (hn : 0 < P.length) (npts : Option Nat) (factor : Nat) :
     (∀ rq out f, resample sqrt trunc g P feat rq = .ok (out, f) → f = []) ∧
+    (∀ mode d out f, interpResample sqrt trunc P feat mode d = .ok (out, f) → f = feat) ∧
     (∀ d, resample sqrt trunc g P feat ⟨2, some d, npts, factor⟩
         = match resampleTemporal trunc P d with | .ok out => .ok (out, []) | .error e => .error e) ∧
     (∀ ds, resample sqrt trunc g P feat ⟨1, some (.number ds), npts, factor⟩
         = match resampleSpatial sqrt trunc P ds with | .ok out => .ok (out, []) | .error e => .error e) ∧
+    (∀ l, resample sqrt trunc g P feat ⟨1, some (.instants l), npts, factor⟩ = .error .type) ∧
     (npts.getD (P.length * factor) ≠ 0 →
       resample sqrt trunc g P feat ⟨2, none, npts, factor⟩
         = resample sqrt trunc g P feat ⟨2, some (.number
@@ -261,46 +270,357 @@ theorem frontend (sqrt : α → α) (trunc : α → Int) (g : α) (P : List (Fix
         = resample sqrt trunc g P feat ⟨1, some (.number
             (g * total (legs3D sqrt P) / ((npts.getD (P.length * factor) : Nat) : α))), npts, factor⟩) := by
   have hne : P.isEmpty = false := by cases P with | nil => simp at hn | cons a l => rfl
-  refine ⟨?_, ?_, ?_, ?_⟩
+  have h21 : ((2 : Nat) = 1) = False := by simp
+  refine ⟨?_, ?_, ?_, ?_, ?_, ?_⟩
   · intro rq out f h
     unfold resample at h
     simp only [hne] at h
     split at h
     · exact absurd h (by simp)
-    · rename_i d _
-      simp only [Bool.false_eq_true, if_false] at h
+    · simp only [Bool.false_eq_true, if_false] at h
       split at h
+      · exact absurd h (by simp)
+      · simp only [Except.ok.injEq, Prod.mk.injEq] at h; exact h.2.symm
+  · intro mode d out f h
+    unfold interpResample at h
+    split at h
+    · split at h
       · split at h
-        · split at h
-          · exact absurd h (by simp)
-          · simp only [Except.ok.injEq, Prod.mk.injEq] at h; exact h.2.symm
         · exact absurd h (by simp)
-      · split at h
-        · split at h
-          · exact absurd h (by simp)
-          · simp only [Except.ok.injEq, Prod.mk.injEq] at h; exact h.2.symm
         · simp only [Except.ok.injEq, Prod.mk.injEq] at h; exact h.2.symm
+      · exact absurd h (by simp)
+    · split at h
+      · split at h
+        · exact absurd h (by simp)
+        · simp only [Except.ok.injEq, Prod.mk.injEq] at h; exact h.2.symm
+      · simp only [Except.ok.injEq, Prod.mk.injEq] at h; exact h.2.symm
   · intro d
-    simp only [resample, hne, Bool.false_eq_true, if_false]
-    simp only [show (2 : Nat) = 1 ↔ False by decide, if_false, if_true]
+    simp only [resample, interpResample, hne, Bool.false_eq_true, if_false, h21, if_true]
     cases resampleTemporal trunc P d <;> rfl
   · intro ds
-    simp only [resample, hne, Bool.false_eq_true, if_false, if_true]
+    simp only [resample, interpResample, hne, Bool.false_eq_true, if_false, if_true]
     cases resampleSpatial sqrt trunc P ds <;> rfl
+  · intro l
+    simp only [resample, interpResample, hne, Bool.false_eq_true, if_false, if_true]
   · intro hnp
     cases npts with
     | none =>
       simp only [Option.getD_none] at hnp ⊢
       constructor
-      · simp only [resample, hne, head?_times P hn, getLast?_times P hn, show (2 : Nat) = 1 ↔ False by decide,
-          if_false, if_neg hnp]
+      · simp only [resample, hne, head?_times P hn, getLast?_times P hn, h21, if_false, if_neg hnp]
       · simp only [resample, hne, if_true, if_neg hnp]
     | some n =>
       simp only [Option.getD_some] at hnp ⊢
       constructor
-      · simp only [resample, hne, head?_times P hn, getLast?_times P hn, show (2 : Nat) = 1 ↔ False by decide,
-          if_false, if_neg hnp]
+      · simp only [resample, hne, head?_times P hn, getLast?_times P hn, h21, if_false, if_neg hnp]
       · simp only [resample, hne, if_true, if_neg hnp]
+
+/-! ### degenerate requests ("every requested instant", also when there is none) -/
+
+/-- D1 `temporal_outside`. Requested instants that all lie outside `(tini, tfin]` (before or at the first stamp, after
+the last one) yield NO observation and no exception — for every non-empty track, whatever the order of its stamps and
+of the request. -/
+theorem temporal_outside (trunc : α → Int) (P : List (Fix α)) (hn : 0 < P.length) (ref : List α)
+    (h : ∀ t ∈ ref, t ≤ (P[0]).t ∨ (P[P.length - 1]).t < t) :
+    resampleTemporal trunc P (.instants ref) = .ok [] :=
+  resampleTemporal_outside trunc P hn ref h
+
+/-- D2 `temporal_degenerate`. The degenerate requests, for every non-empty track `P`:
+(a) an empty list of instants, (b) a reference track without observation, (c) an argument that is neither a number,
+a list nor a Track (no `isinstance` branch) all return the empty track; (d) a reference track is read through its
+stamps only: `.track Q` is the request `.instants (stamps of Q)` — in particular a reference track with ONE
+observation is the one-instant list; (e) a track with a single fix has an empty range `(tini, tfin]`: every list of
+instants returns the empty track. -/
+theorem temporal_degenerate (trunc : α → Int) (P : List (Fix α)) (hn : 0 < P.length) :
+    resampleTemporal trunc P (.instants []) = .ok [] ∧
+    resampleTemporal trunc P (.track []) = .ok [] ∧
+    resampleTemporal trunc P .other = .ok [] ∧
+    (∀ Q : List (Fix α), resampleTemporal trunc P (.track Q) = resampleTemporal trunc P (.instants (Q.map (·.t)))) ∧
+    (P.length = 1 → ∀ ref, resampleTemporal trunc P (.instants ref) = .ok []) := by
+  have h0 : resampleTemporal trunc P (.instants []) = .ok [] :=
+    resampleTemporal_outside trunc P hn [] (fun _ h => absurd h (by simp))
+  refine ⟨h0, ?_, ?_, fun Q => resampleTemporal_track trunc P Q, ?_⟩
+  · rw [resampleTemporal_track]; exact h0
+  · rw [resampleTemporal_other]; exact h0
+  · intro h1 ref
+    apply resampleTemporal_outside trunc P hn
+    intro t _
+    have : (P[P.length - 1]'(by omega)) = P[0] := by congr 1; omega
+    rw [this]
+    exact le_or_gt t _
+
+/-- D3 `temporal_repeated`. An instant requested `n` times (on a track whose stamps never decrease) is answered
+`n` times when it lies in `(tini, tfin]` — the same sample each time — and not at all otherwise. -/
+theorem temporal_repeated (trunc : α → Int) (P : List (Fix α)) (hn : 0 < P.length)
+    (hT : (P.map (·.t)).Pairwise (· ≤ ·)) (t : α) (n : Nat) :
+    resampleTemporal trunc P (.instants (List.replicate n t))
+      = .ok (if (P[0]).t < t ∧ t ≤ (P[P.length - 1]).t then List.replicate n (sampleT P t) else []) := by
+  rw [resampleTemporal_instants_any trunc P hn hT]
+  congr 1
+  by_cases h : (P[0]).t < t ∧ t ≤ (P[P.length - 1]).t
+  · rw [if_pos h, List.filter_eq_self.mpr, List.map_replicate]
+    intro a ha
+    rw [List.eq_of_mem_replicate ha]
+    simp [inRange, h.1, h.2]
+  · rw [if_neg h, List.filter_eq_nil_iff.mpr, List.map_nil]
+    intro a ha
+    rw [List.eq_of_mem_replicate ha]
+    simp only [inRange, Bool.and_eq_true, decide_eq_true_eq]
+    exact h
+
+/-- D4 `frontend_empty_request`. Through the front end `Track.resample`, an EMPTY request (`delta = []`, or a
+reference track without observation) in temporal mode is a request for no instant: the track comes back empty
+(and its feature table empty), whatever `npts` and `factor` — it is NOT the case `delta is None` (regular
+resampling with `npts` points). -/
+theorem frontend_empty_request (sqrt : α → α) (trunc : α → Int) (g : α) (P : List (Fix α)) (feat : List String)
+    (hn : 0 < P.length) (npts : Option Nat) (factor : Nat) :
+    resample sqrt trunc g P feat ⟨2, some (.instants []), npts, factor⟩ = .ok ([], []) ∧
+    resample sqrt trunc g P feat ⟨2, some (.track []), npts, factor⟩ = .ok ([], []) := by
+  obtain ⟨_, _, hf, _⟩ := frontend sqrt trunc g P feat hn npts factor
+  obtain ⟨h0, h1, _⟩ := temporal_degenerate trunc P hn
+  exact ⟨by rw [hf, h0], by rw [hf, h1]⟩
+
+/-! ### millisecond stamps (composition with the C03 model) -/
+
+/-- contract of `⌊1000·t⌋` on an instant that is a whole number of milliseconds -/
+def MsSpec (ms : α → Int) : Prop := ∀ m : Nat, ms ((m : α) / 1000) = (m : Int)
+
+/-- S1 `temporal_stamps`. "…stamped with that instant to the millisecond". Instants requested as whole numbers of
+milliseconds `m` (what an `ObsTime` holds), in any order, on a track whose stamps never decrease: the observations
+returned carry, in order, exactly the stamps `ObsTime.readUnixTime(m/1000)` of the requested instants lying in
+`(tini, tfin]` — `readUnixMs m` of the C03 model — and each of these is a well-formed calendar stamp that reads
+back (`toAbsTime`) as `m` milliseconds exactly. (Exact arithmetic: in floats `int((t - int(t))·1000)` may truncate
+to `m − 1`; that is sampled by the correspondence with a 1 ms tolerance.) -/
+theorem temporal_stamps (trunc : α → Int) (ms : α → Int) (hms : MsSpec ms) (P : List (Fix α)) (hn : 0 < P.length)
+    (hT : (P.map (·.t)).Pairwise (· ≤ ·)) (req : List Nat) :
+    ∃ out, resampleTemporal trunc P (.instants (req.map (fun m : Nat => (m : α) / 1000))) = .ok out ∧
+      stamps ms out
+        = (req.filter (fun m : Nat => inRange (P[0]).t (P[P.length - 1]).t ((m : α) / 1000))).map
+            (fun m => some (TV.ObsTime.readUnixMs m)) ∧
+      (∀ m : Nat, TV.ObsTime.WFs (TV.ObsTime.readUnixMs m) ∧ TV.ObsTime.toAbsMs (TV.ObsTime.readUnixMs m) = m) := by
+  obtain ⟨out, hout, _, _, hts⟩ := temporal_count_any_order trunc P hn hT (req.map (fun m : Nat => (m : α) / 1000))
+  refine ⟨out, hout, ?_, ?_⟩
+  · have : stamps ms out = (out.map (·.t)).map (stampOf ms) := by simp [stamps, List.map_map, Function.comp]
+    rw [this, hts, List.filter_map, List.map_map]
+    apply List.map_congr_left
+    intro m _
+    simp only [Function.comp, stampOf, hms m]
+    simp
+  · intro m
+    have h := TV.ObsTime.readUnix_spec (m / 1000)
+    refine ⟨⟨h.1, Nat.mod_lt _ (by omega)⟩, ?_⟩
+    unfold TV.ObsTime.toAbsMs TV.ObsTime.readUnixMs
+    simp only [h.2]
+    omega
+
+/-! ### pauses (repeated positions) in spatial mode -/
+
+/-- T3d `spatial_pause`. Which leg a spatial sample uses when the track pauses (consecutive fixes at the same 2D
+position, i.e. legs of length 0, so that several fixes share one curvilinear abscissa). For the sample at abscissa
+`s ∈ (0, L]`, on the leg `r` of T3 (`S[r−1] < s ≤ S[r]`):
+(a) every fix before `P[r]` has an abscissa `< s`: the leg ENDS at the FIRST fix at or beyond `s`; a sample falling
+exactly on a pause (`s = S[r]`) is the fix at which the pause BEGINS, with its height and its time (arrival);
+(b) every fix from `P[r]` on has an abscissa `> S[r−1]`: the leg STARTS at the LAST fix of abscissa `S[r−1]`; a sample
+beyond a pause is interpolated, in height and in time, from the fix that ENDS the pause (departure) — never from
+an earlier fix of the pause;
+(c) no sample is ever interpolated on a leg of length 0 (`0 < legs[r−1]`). -/
+theorem spatial_pause (P : List (Fix α)) (legs : List α) (hlen : legs.length + 1 = P.length)
+    (hlegs : ∀ x ∈ legs, 0 ≤ x) (s : α) (h0 : 0 < s) (h1 : s ≤ polyLen legs) :
+    ∃ (r : Nat) (_ : 1 ≤ r) (hr : r < P.length),
+      (cum legs).getD (r - 1) 0 < s ∧ s ≤ (cum legs).getD r 0 ∧ 0 < legs[r - 1]'(by omega) ∧
+      (∀ j, j < r → (cum legs).getD j 0 < s) ∧
+      (∀ j, r ≤ j → j < P.length → (cum legs).getD (r - 1) 0 < (cum legs).getD j 0) ∧
+      (s = (cum legs).getD r 0 → sampleS P (cum legs) s = P[r]) := by
+  obtain ⟨r, hr1, hr, hlo, hhi, hleg, hpos, _, _, _, hsmp, huniq⟩ := sampleS_on_leg P legs hlen hlegs s h0 h1
+  have hSlen := cum_length legs
+  have hS0 : (cum legs)[0]'(by omega) = 0 := cumFrom_head 0 legs
+  obtain ⟨hf1, hflt, _, hfhi⟩ := firstGE_bracket (cum legs) s (by omega) (by rw [hS0]; exact h0)
+    (by rw [← polyLen_eq]; exact h1)
+  have hfr : firstGE s (cum legs) = r := by
+    apply huniq _ hf1 (by omega)
+    · rw [getD0_eq _ _ (by omega)]; exact lt_of_lt_firstGE s (cum legs) _ (by omega) (by omega)
+    · rw [getD0_eq _ _ hflt]; exact hfhi
+  have hsorted : (cum legs).Pairwise (· ≤ ·) := cumFrom_pairwise 0 legs hlegs
+  refine ⟨r, hr1, hr, hlo, hhi, hpos, ?_, ?_, ?_⟩
+  · intro j hj
+    rw [getD0_eq _ _ (by omega)]
+    exact lt_of_lt_firstGE s (cum legs) j (by omega) (by omega)
+  · intro j hrj hj
+    rw [getD0_eq _ _ (by omega), getD0_eq _ _ (by omega)] at *
+    have h2 : (cum legs)[r]'(by omega) ≤ (cum legs)[j]'(by omega) := by
+      rcases Nat.eq_or_lt_of_le hrj with h | h
+      · subst h; exact le_refl _
+      · exact List.pairwise_iff_getElem.mp hsorted r j (by omega) (by omega) h
+    exact lt_of_lt_of_le (lt_of_lt_of_le hlo hhi) h2
+  · intro hs
+    rw [hsmp]
+    have hf : (s - (cum legs).getD (r - 1) 0) / legs[r - 1]'(by omega) = 1 := by
+      rw [← hleg, hs]; exact div_self (by rw [hleg]; exact ne_of_gt hpos)
+    rw [hf]
+    cases hP : P[r] with
+    | mk x y z t => simp [lerpFix]
+
+/-! ### callers: operators, `sample`, `synchronize`, `TrackCollection` -/
+
+/-- O1 `operators`. The operators of `Track` that delegate to linear resampling, on a non-empty track whose stamps
+never decrease: `track // ref` returns exactly one observation per stamp of `ref` lying in `(tini, tfin]`, in the
+order of `ref`, each the specification sample (T2) — the reference may be empty, hold one observation, be unsorted or
+lie entirely outside the range; `track ** n` is `Track.resample(npts = n, mode = temporal)`; `track * k` is
+`Track.resample(factor = k)` in the default spatial mode; all with an empty feature table. -/
+theorem operators (sqrt : α → α) (trunc : α → Int) (g : α) (P : List (Fix α)) (feat : List String)
+    (hn : 0 < P.length) (hT : (P.map (·.t)).Pairwise (· ≤ ·)) :
+    (∀ Q : List (Fix α), floordiv sqrt trunc g P feat Q
+        = .ok (((Q.map (·.t)).filter (inRange (P[0]).t (P[P.length - 1]).t)).map (sampleT P), [])) ∧
+    (∀ n, pow sqrt trunc g P feat n = resample sqrt trunc g P feat ⟨2, none, some n, 1⟩) ∧
+    (∀ k, mulNumber sqrt trunc g P feat k = resample sqrt trunc g P feat ⟨1, none, none, k⟩) := by
+  refine ⟨fun Q => ?_, fun _ => rfl, fun _ => rfl⟩
+  obtain ⟨_, _, hf, _⟩ := frontend sqrt trunc g P feat hn none 1
+  unfold floordiv
+  rw [hf, resampleTemporal_track, resampleTemporal_instants_any trunc P hn hT]
+
+/-- O2 `sample_spec`. `interpolation.sample(track, t)` on a non-empty track whose stamps never decrease returns the
+specification sample at `t` (T2) when `t ∈ (tini, tfin]` and raises IndexError otherwise. -/
+theorem sample_spec (sqrt : α → α) (trunc : α → Int) (P : List (Fix α)) (hn : 0 < P.length)
+    (hT : (P.map (·.t)).Pairwise (· ≤ ·)) (t : α) :
+    sample sqrt trunc P t
+      = if (P[0]).t < t ∧ t ≤ (P[P.length - 1]).t then .ok (sampleT P t) else .error .index := by
+  have h := temporal_repeated trunc P hn hT t 1
+  simp only [List.replicate_one] at h
+  have h21 : ((2 : Nat) = 1) = False := by simp
+  unfold sample interpResample
+  simp only [h21, if_false, if_true, h]
+  by_cases hc : (P[0]).t < t ∧ t ≤ (P[P.length - 1]).t
+  · simp only [if_pos hc]
+  · simp only [if_neg hc]
+
+/-- O3 `synchronize_spec`. `synchronize(track1, track2)` on two non-empty tracks whose stamps never decrease
+raises nothing and leaves both tracks with exactly the SAME timestamps `req`: in chronological order, precisely the
+stamps of either track lying strictly inside the common time range `(max of the first stamps, min of the last
+stamps)`, each track holding at every one of them its own specification sample (T2). When no stamp lies strictly
+inside the common range both tracks come back empty. (A stamp present in both tracks appears once, except that the
+de-duplication loop never tests the first two positions; see `syncDedup`.) -/
+theorem synchronize_spec (sqrt : α → α) (trunc : α → Int) (g : α) (P1 P2 : List (Fix α)) (f1 f2 : List String)
+    (hn1 : 0 < P1.length) (hn2 : 0 < P2.length)
+    (hT1 : (P1.map (·.t)).Pairwise (· ≤ ·)) (hT2 : (P2.map (·.t)).Pairwise (· ≤ ·)) :
+    ∃ req : List α,
+      synchronize sqrt trunc g P1 P2 f1 f2
+        = .ok ((req.map (sampleT P1), []), (req.map (sampleT P2), [])) ∧
+      req.Pairwise (· ≤ ·) ∧
+      (∀ t, t ∈ req ↔ (t ∈ P1.map (·.t) ∨ t ∈ P2.map (·.t)) ∧
+        max (P1[0]).t (P2[0]).t < t ∧ t < min (P1[P1.length - 1]).t (P2[P2.length - 1]).t) ∧
+      (req.map (sampleT P1)).map (·.t) = req ∧ (req.map (sampleT P2)).map (·.t) = req := by
+  have hh1 : P1.head? = some P1[0] := by cases P1 with | nil => simp at hn1 | cons a l => simp
+  have hh2 : P2.head? = some P2[0] := by cases P2 with | nil => simp at hn2 | cons a l => simp
+  have hl1 : P1.getLast? = some P1[P1.length - 1] := by
+    rw [List.getLast?_eq_getElem?, List.getElem?_eq_getElem (by omega)]
+  have hl2 : P2.getLast? = some P2[P2.length - 1] := by
+    rw [List.getLast?_eq_getElem?, List.getElem?_eq_getElem (by omega)]
+  refine ⟨syncRequest (P1.map (·.t)) (P2.map (·.t)) (pmax (P1[0]).t (P2[0]).t)
+      (pmin (P1[P1.length - 1]).t (P2[P2.length - 1]).t), ?_, syncRequest_sorted _ _ _ _, ?_, ?_, ?_⟩
+  · have hmem := mem_syncRequest (P1.map (·.t)) (P2.map (·.t)) (pmax (P1[0]).t (P2[0]).t)
+      (pmin (P1[P1.length - 1]).t (P2[P2.length - 1]).t)
+    rw [pmax_eq, pmin_eq] at hmem
+    obtain ⟨_, _, hfr1, _⟩ := frontend sqrt trunc g P1 f1 hn1 none 1
+    obtain ⟨_, _, hfr2, _⟩ := frontend sqrt trunc g P2 f2 hn2 none 1
+    unfold synchronize
+    simp only [hh1, hh2, hl1, hl2, hfr1, hfr2, resampleTemporal_instants_any trunc P1 hn1 hT1,
+      resampleTemporal_instants_any trunc P2 hn2 hT2]
+    rw [List.filter_eq_self.mpr, List.filter_eq_self.mpr]
+    · intro a ha
+      rw [pmax_eq, pmin_eq] at ha
+      obtain ⟨_, h1, h2⟩ := (hmem a).mp ha
+      simp only [inRange, Bool.and_eq_true, decide_eq_true_eq]
+      exact ⟨lt_of_le_of_lt (le_max_right _ _) h1, le_of_lt (lt_of_lt_of_le h2 (min_le_right _ _))⟩
+    · intro a ha
+      rw [pmax_eq, pmin_eq] at ha
+      obtain ⟨_, h1, h2⟩ := (hmem a).mp ha
+      simp only [inRange, Bool.and_eq_true, decide_eq_true_eq]
+      exact ⟨lt_of_le_of_lt (le_max_left _ _) h1, le_of_lt (lt_of_lt_of_le h2 (min_le_left _ _))⟩
+  · intro t
+    rw [mem_syncRequest, pmax_eq, pmin_eq]
+  · rw [List.map_map]
+    conv_rhs => rw [← List.map_id (syncRequest _ _ _ _)]
+    apply List.map_congr_left
+    intro t _
+    simp [sampleT, lerpFix]
+  · rw [List.map_map]
+    conv_rhs => rw [← List.map_id (syncRequest _ _ _ _)]
+    apply List.map_congr_left
+    intro t _
+    simp [sampleT, lerpFix]
+
+omit [IsStrictOrderedRing α] in
+/-- O4 `collection_resample`. `TrackCollection.resample(delta, ALGO_LINEAR, mode)` is `Track.resample(delta, mode)`
+on every track, in order: it returns (all tracks resampled) exactly when every track's resampling returns, each
+track getting its own result. -/
+theorem collection_resample (sqrt : α → α) (trunc : α → Int) (g : α)
+    (tracks : List (List (Fix α) × List String)) (mode : Nat) (d : Step α)
+    (outs : List (List (Fix α) × List String)) :
+    collResample sqrt trunc g tracks mode d = .ok outs ↔
+      List.Forall₂ (fun tr out => resample sqrt trunc g tr.1 tr.2 ⟨mode, some d, none, 1⟩ = .ok out) tracks outs := by
+  unfold collResample
+  induction tracks generalizing outs with
+  | nil =>
+    simp only [List.mapM_nil]
+    constructor
+    · intro h; cases h; exact List.Forall₂.nil
+    · intro h; cases h; rfl
+  | cons tr rest ih =>
+    rw [List.mapM_cons]
+    cases hres : resample sqrt trunc g tr.1 tr.2 ⟨mode, some d, none, 1⟩ with
+    | error e =>
+      constructor
+      · intro h; cases h
+      · intro h; cases h with | cons h1 _ => rw [hres] at h1; cases h1
+    | ok o =>
+      cases hrest : List.mapM (fun tr => resample sqrt trunc g tr.1 tr.2 ⟨mode, some d, none, 1⟩) rest with
+      | error e =>
+        constructor
+        · intro h; cases h
+        · intro h
+          cases h with
+          | cons h1 h2 => rw [(ih _).mpr h2] at hrest; cases hrest
+      | ok os =>
+        constructor
+        · intro h
+          cases h
+          exact List.Forall₂.cons hres ((ih os).mp hrest)
+        · intro h
+          cases h with
+          | cons h1 h2 =>
+            rw [hres] at h1; cases h1
+            rw [(ih _).mpr h2] at hrest; cases hrest
+            rfl
+
+/-- O5 `collection_floordiv`. `collection // ref` (`TrackCollection.__floordiv__`, fix commit ea8666e) on a
+collection of non-empty tracks whose stamps never decrease raises nothing and returns, for every track in order, that
+track's own TEMPORAL resampling at the stamps of the reference track: exactly one observation per stamp of `ref` lying
+in the track's `(tini, tfin]`, in the order of `ref`, each the specification sample (T2), with an empty feature
+table — i.e. `track // ref` for every track (O1). The reference may be empty, unsorted, or outside every range. -/
+theorem collection_floordiv (sqrt : α → α) (trunc : α → Int) (g : α)
+    (tracks : List (List (Fix α) × List String)) (Q : List (Fix α))
+    (hne : ∀ tr ∈ tracks, 0 < tr.1.length) (hT : ∀ tr ∈ tracks, (tr.1.map (·.t)).Pairwise (· ≤ ·)) :
+    collFloordiv sqrt trunc g tracks Q
+      = .ok (tracks.map (fun tr =>
+          (((Q.map (·.t)).filter (inRange (tr.1[0]?.getD zeroFix).t (tr.1[tr.1.length - 1]?.getD zeroFix).t)).map
+            (sampleT tr.1), []))) ∧
+    collFloordiv sqrt trunc g tracks Q = tracks.mapM (fun tr => floordiv sqrt trunc g tr.1 tr.2 Q) := by
+  refine ⟨?_, rfl⟩
+  unfold collFloordiv
+  induction tracks with
+  | nil => rfl
+  | cons tr rest ih =>
+    have hn : 0 < tr.1.length := hne tr List.mem_cons_self
+    have h1 := (operators sqrt trunc g tr.1 tr.2 hn (hT tr List.mem_cons_self)).1 Q
+    unfold floordiv at h1
+    rw [List.mapM_cons, h1, ih (fun t ht => hne t (List.mem_cons_of_mem _ ht))
+      (fun t ht => hT t (List.mem_cons_of_mem _ ht))]
+    simp only [List.map_cons]
+    have e0 : tr.1[0]?.getD zeroFix = tr.1[0] := by simp [hn]
+    have e1 : tr.1[tr.1.length - 1]?.getD zeroFix = tr.1[tr.1.length - 1] := by
+      rw [List.getElem?_eq_getElem (by omega)]; rfl
+    rw [e0, e1]
+    rfl
 
 /-! ### non-vacuity -/
 
@@ -341,5 +661,78 @@ example : resampleTemporal (fun x : ℚ => x.floor) [⟨0, 0, 0, 10⟩, ⟨10, 0
     = .ok [⟨10, 5, 0, 25⟩, ⟨5, 0, 0, 15⟩, ⟨10, 10, 0, 30⟩, ⟨2, 0, 0, 12⟩, ⟨2, 0, 0, 12⟩] := by decide +kernel
 example : resampleTemporal (fun x : ℚ => x.floor) [⟨0, 0, 0, 10⟩, ⟨10, 0, 0, 20⟩] (.instants [21, 15])
     = .ok [⟨5, 0, 0, 15⟩] := by decide +kernel
+
+
+/-! #### degenerate requests, stamps, pauses, callers -/
+
+/-- `demo` has stamps 10, 20, 25, 40.5 s: every instant of this request is outside `(10, 40.5]` -/
+example : resampleTemporal (fun x : ℚ => x.floor) demo (.instants [41, 10, 5, 100, 10]) = .ok [] := by decide +kernel
+example : resampleTemporal (fun x : ℚ => x.floor) demo (.instants []) = .ok [] := by decide +kernel
+example : resampleTemporal (fun x : ℚ => x.floor) demo (.track []) = .ok [] := by decide +kernel
+/-- a reference track with one observation (only its stamp is read) -/
+example : resampleTemporal (fun x : ℚ => x.floor) demo (.track [⟨100, 100, 100, 15⟩]) = .ok [⟨3/2, 2, 5, 15⟩] := by
+  decide +kernel
+/-- a one-fix track has an empty range -/
+example : resampleTemporal (fun x : ℚ => x.floor) [(⟨1, 2, 3, 10⟩ : Fix ℚ)] (.instants [5, 10, 11]) = .ok [] := by
+  decide +kernel
+/-- a repeated instant is answered as many times as it is requested -/
+example : resampleTemporal (fun x : ℚ => x.floor) demo (.instants [15, 15, 15])
+    = .ok [⟨3/2, 2, 5, 15⟩, ⟨3/2, 2, 5, 15⟩, ⟨3/2, 2, 5, 15⟩] := by decide +kernel
+/-- an empty request through the front end is NOT `delta = None`: nothing comes out although `npts = 5` is given;
+`delta = None` with the same `npts` resamples regularly -/
+example : resample (fun x : ℚ => x) (fun x : ℚ => x.floor) 1 demo ["speed"] ⟨2, some (.instants []), some 5, 1⟩
+    = .ok ([], []) := by decide +kernel
+example : (resample (fun x : ℚ => x) (fun x : ℚ => x.floor) 1 demo ["speed"] ⟨2, none, some 5, 1⟩).toOption.map
+    (fun r => r.1.length) = some 5 := by decide +kernel
+
+/-- the contract of `⌊1000·t⌋` is met on ℚ -/
+example : MsSpec (fun t : ℚ => (t * 1000).floor) := by
+  intro m
+  have : ((m : ℚ) / 1000 * 1000) = ((m : Int) : ℚ) := by
+    rw [div_mul_cancel₀ _ (by norm_num : (1000 : ℚ) ≠ 0)]; simp
+  simp only [this]
+  exact Rat.floor_intCast _
+/-- stamps to the millisecond: 10.999 s is not after the first fix… 11.001 s, 20 s, 40.5 s are stamped
+00:00:11.001, 00:00:20.000, 00:00:40.500 of 1970-01-01; 40.501 s is after the last fix -/
+example : (resampleTemporal (fun x : ℚ => x.floor) demo
+      (.instants (([9999, 11001, 20000, 40500, 40501] : List Nat).map (fun m : Nat => (m : ℚ) / 1000)))).toOption.map
+      (stamps (fun t : ℚ => (t * 1000).floor))
+    = some [some ⟨⟨1970, 1, 1, 0, 0, 11⟩, 1⟩, some ⟨⟨1970, 1, 1, 0, 0, 20⟩, 0⟩, some ⟨⟨1970, 1, 1, 0, 0, 40⟩, 500⟩] := by
+  decide +kernel
+
+/-- pauses: on `demo` (legs 5, 0, 5: the track pauses at (3,4) from 20 s to 25 s, its height unchanged) the sample at
+abscissa 5 is the fix where the pause BEGINS (20 s); the sample at abscissa 6 is interpolated from the fix that ENDS
+the pause: `t = 25 + (1/5)·15.5 = 28.1 s` (not `20 + …`), `z = 10 + (1/5)·(0 − 10) = 8` -/
+example : sampleS demo (cum [5, 0, 5]) 5 = ⟨3, 4, 10, 20⟩ := by decide +kernel
+example : sampleS demo (cum [5, 0, 5]) 6 = ⟨18/5, 24/5, 8, 281/10⟩ := by decide +kernel
+
+/-- `track // ref`: a reference with stamps before, inside (unsorted, repeated) and after the range -/
+example : floordiv (fun x : ℚ => x) (fun x : ℚ => x.floor) 1 demo ["speed"]
+      [⟨0, 0, 0, 30⟩, ⟨0, 0, 0, 5⟩, ⟨0, 0, 0, 15⟩, ⟨0, 0, 0, 15⟩, ⟨0, 0, 0, 50⟩]
+    = .ok ([⟨123/31, 164/31, 210/31, 30⟩, ⟨3/2, 2, 5, 15⟩, ⟨3/2, 2, 5, 15⟩], []) := by decide +kernel
+example : floordiv (fun x : ℚ => x) (fun x : ℚ => x.floor) 1 demo [] [] = .ok ([], []) := by decide +kernel
+example : sample (fun x : ℚ => x) (fun x : ℚ => x.floor) demo 15 = .ok ⟨3/2, 2, 5, 15⟩ := by decide +kernel
+example : sample (fun x : ℚ => x) (fun x : ℚ => x.floor) demo 10 = .error .index := by decide +kernel
+
+/-- `synchronize`: tracks over [0, 25] and [5, 47] s; the stamps strictly inside (5, 25) are 12 (both tracks), 14, 20 -/
+def syncA : List (Fix ℚ) := [⟨0, 0, 0, 0⟩, ⟨5, 0, 0, 12⟩, ⟨5, 0, 0, 14⟩, ⟨9, 0, 0, 25⟩]
+def syncB : List (Fix ℚ) := [⟨0, 1, 0, 5⟩, ⟨7, 1, 0, 12⟩, ⟨8, 1, 0, 20⟩, ⟨9, 1, 0, 47⟩]
+example : synchronize (fun x : ℚ => x) (fun x : ℚ => x.floor) 1 syncA syncB [] ["f"]
+    = .ok (([⟨5, 0, 0, 12⟩, ⟨5, 0, 0, 12⟩, ⟨5, 0, 0, 14⟩, ⟨5 + 24/11, 0, 0, 20⟩], []),
+           ([⟨7, 1, 0, 12⟩, ⟨7, 1, 0, 12⟩, ⟨7 + 1/4, 1, 0, 14⟩, ⟨8, 1, 0, 20⟩], [])) := by decide +kernel
+/-- tracks that overlap on (20, 25) only, where neither has a fix: no instant is requested, both come back empty -/
+example : synchronize (fun x : ℚ => x) (fun x : ℚ => x.floor) 1
+      [⟨0, 0, 0, 0⟩, ⟨5, 0, 0, 12⟩, ⟨9, 0, 0, 25⟩] [⟨0, 1, 0, 20⟩, ⟨5, 1, 0, 33⟩, ⟨9, 1, 0, 47⟩] [] []
+    = .ok (([], []), ([], [])) := by decide +kernel
+
+/-- a collection of two tracks resampled every 10 s -/
+example : (collResample (fun x : ℚ => x) (fun x : ℚ => x.floor) 1 [(syncA, []), (syncB, ["f"])] 2 (.number 10)).toOption.map
+    (fun l => l.map (fun r => (r.1.map (·.t), r.2))) = some [([10, 20], []), ([15, 25, 35, 45], [])] := by decide +kernel
+/-- `collection // ref` (fix commit ea8666e): every track is resampled IN TIME at the stamps of the reference — here
+`syncB`'s stamps 5, 12, 20, 47 s, of which 5, 12, 20 lie in `syncA`'s range (0, 25] and 12, 20, 47 in `syncB`'s (5, 47] -/
+example : (collFloordiv (fun x : ℚ => x) (fun x : ℚ => x.floor) 1 [(syncA, ["f"]), (syncB, [])] syncB).toOption.map
+    (fun l => l.map (fun r => (r.1.map (·.t), r.2))) = some [([5, 12, 20], []), ([12, 20, 47], [])] := by decide +kernel
+example : collFloordiv (fun x : ℚ => x) (fun x : ℚ => x.floor) 1 [(syncA, [])] syncB
+    = .ok [([⟨25/12, 0, 0, 5⟩, ⟨5, 0, 0, 12⟩, ⟨5 + 24/11, 0, 0, 20⟩], [])] := by decide +kernel
 
 end TV.C05
